@@ -51,9 +51,9 @@ type c11Spec struct {
 	Files   []c11File `json:"files"`
 	Entry   string    `json:"entry"` // FromFile, FromCache, FromString, FromBytes, RenderTemplate{String,Bytes,File}
 	// WarmUp: the set is used once with its first loader only; the others are added afterwards
-	WarmUp bool `json:"loaders_added_after_first_use,omitempty"`
-	TopName string    `json:"top_name"`
-	Root    string    `json:"-"` // local kinds: temp dir
+	WarmUp  bool   `json:"loaders_added_after_first_use,omitempty"`
+	TopName string `json:"top_name"`
+	Root    string `json:"-"` // local kinds: temp dir
 }
 
 type c11Checker struct{}
@@ -288,6 +288,8 @@ func c11Ctx(sp *c11Spec) pongo2.Context {
 
 // c11Globals: the set's Globals bind the same variables to other names.
 func c11Globals(sp *c11Spec, set *pongo2.TemplateSet) {
+	// the caller's pv shadows a global of the same name, for the includer and for what it includes
+	set.Globals["pv"] = "GLOBAL-PV"
 	for _, r := range sp.Files[0].Refs {
 		if r.Var != "" {
 			set.Globals[r.Var] = r.GlobalName
@@ -704,7 +706,9 @@ func (r *c11Ref2) execRefs(n *c11Node, f c11File, execName string, env c11Env, b
 		}
 		sub := env
 		if ref.Only {
-			sub = c11Env{}
+			// nothing of the includer - what remains is what every execution in this set
+			// starts from, the set's Globals
+			sub = c11Env{pv: "GLOBAL-PV"}
 			r.probes["only_scope"]++
 		}
 		if ref.With != "" {
